@@ -415,7 +415,7 @@ VARIANTS += [
     V('C09-M21', 'M', ('C09',), WK, 'Worker.__init__', r'if batch_wait_time is None:\n\s+batch_wait_time = 0\.01', 'batch_wait_time = batch_wait_time or 0.01', ('C09-4',), note='seeded C09-r2m1 shape'),
     V('C19-M21', 'M', ('C19',), ST, 'EagerBatcher.__init__', r'if batch_wait_time is None:\n(\s+)if batch_size > 1:\n\s+batch_wait_time = 60\n\s+else:\n\s+batch_wait_time = 0', r'if not batch_wait_time:\n\1batch_wait_time = 60 if batch_size > 1 else 0', ('C19-3',), note='spare idea of the C19 agent'),
     V('C09-E20', 'E', ALL, WK, 'Worker.__init__', r'self\.batch_wait_time = batch_wait_time', 'self.batch_wait_time = batch_wait_time if batch_wait_time is not None else 0.01'),
-    V('C12-M20', 'M', ('C12',), TH, 'Thread.run', r'(\n(\s+))e\.__cause__ = type\(e\)\(tb\)', r'\1if e.__cause__ is None:\1    e.__cause__ = type(e)(tb)', ('C12-6',), note='seeded C12-r2m2 shape'),
+    V('C12-M20', 'M', ('C12',), TH, 'Thread.run', r'(\n(\s+))e\.__cause__ = cause', r'\1if e.__cause__ is None:\1    e.__cause__ = cause', ('C12-6',), note='seeded C12-r2m2 shape'),
     V('C12-M21', 'M', ('C12',), CX, 'SpawnProcess.__init__', r'if kwargs is None:\n\s+kwargs = \{\}\n\s+else:\n\s+kwargs = dict\(kwargs\)', 'kwargs = kwargs or {}', ('C12-7',), note='seeded C12-r2m1 shape'),
     V('C12-M22', 'M', ('C12',), CX, 'SpawnProcess.__init__', r'\n\s+else:\n\s+kwargs = dict\(kwargs\)', '', ('C12-7',)),
     V('C12-E20', 'E', ALL, CX, 'SpawnProcess.__init__', r'if kwargs is None:\n\s+kwargs = \{\}\n\s+else:\n\s+kwargs = dict\(kwargs\)', 'kwargs = dict(kwargs or {})'),
